@@ -78,7 +78,8 @@ def gen_case(rng, tdir):
                           b'```\n{{a.txt}}\n```\n', gen.gen_bytes(rng) + b'{{a.txt}}'])
         if rng.random() < 0.25:
             return ('MANIFEST', 0, ext, 0, rng.randrange(3), [src, tdir, os.path.join(tdir, 'top.txt')], 'manifest')
-        return ('TRANSCLUDE', rng.choice([0, 2, 5, 11]), 0, 0, 0, [src, tdir, os.path.join(tdir, rng.choice(['top.txt', 'self.txt']))], 'transclude')
+        # flag 2: no search path given (then only a 'transclude base' in the text can name one)
+        return ('TRANSCLUDE', rng.choice([0, 2, 5, 11]), 0, 0, rng.choice([0, 0, 2]), [src, tdir, os.path.join(tdir, rng.choice(['top.txt', 'self.txt']))], 'transclude')
     if r < 0.98:
         return ('HEADFOOT', 0, 0, 0, 0, [gen.amplifier_meta(rng) if rng.random() < 0.7 else gen.gen_bytes(rng)], 'headfoot')
     src = gen.gen_bytes(rng)
